@@ -1026,7 +1026,26 @@ func (g *schemaGenerator) defaultPropertyValue(prop *schemas.Type) any {
 	return prop.Default
 }
 
+// maxTypeNesting bounds how deep the generation of one type may descend into the types it contains.
+// No hand-written schema comes close; an allOf/anyOf branch that refers back to the schema it is part
+// of is merged into itself again and again and would otherwise never stop.
+const maxTypeNesting = 500
+
 func (g *schemaGenerator) generateTypeInline(t *schemas.Type, scope nameScope) (codegen.Type, error) {
+	g.typeNesting++
+	defer func() { g.typeNesting-- }()
+
+	if g.typeNesting > maxTypeNesting {
+		name := scope.string()
+		if len(name) > 64 {
+			name = name[:64] + "..."
+		}
+
+		return nil, fmt.Errorf("%w: %s is nested more than %d levels deep "+
+			"(does an allOf/anyOf branch refer back to the schema it is part of?)",
+			errCannotGenerateReferencedType, name, maxTypeNesting)
+	}
+
 	if t.Enum == nil && t.Ref == "" {
 		if ext := t.GoJSONSchemaExtension; ext != nil {
 			for _, pkg := range ext.Imports {
